@@ -120,11 +120,25 @@ def jdump(obj):
     return json.dumps(obj, sort_keys=True, separators=(",", ":"))
 
 
+# seam methods that only pass a call through to the real engine / stdlib: an exception raised below them
+# (e.g. inside RDKit's C++ code) belongs to the system under test, not to the harness
+SEAM_PASSTHROUGH = {"EmbedMolecule", "UFFOptimizeMolecule", "__getattr__", "choices", "choice", "wrapped"}
+
+
 def raised_in_harness(exc):
-    """True if the exception was raised by harness code (innermost frame under /verif/sim), i.e. it is a bug of the
-    simulator and must never be recorded as an outcome of the code under test."""
+    """True if the exception was raised by harness code (innermost frame under /verif/sim, seam pass-through
+    methods aside), i.e. it is a bug of the simulator and must never be recorded as an outcome of the code
+    under test."""
     import os
     import traceback
     here = os.path.dirname(os.path.abspath(__file__))
     frames = traceback.extract_tb(exc.__traceback__)
-    return bool(frames) and os.path.abspath(frames[-1].filename).startswith(here)
+    while frames and os.path.abspath(frames[-1].filename).startswith(here) and frames[-1].name in SEAM_PASSTHROUGH:
+        frames = frames[:-1]
+    if not frames:
+        return False
+    if not os.path.abspath(frames[-1].filename).startswith(here):
+        return False
+    # innermost remaining frame is harness code: a seam that forwarded the call appears *above* library frames,
+    # so reaching here means the harness itself raised
+    return len(frames) == len(traceback.extract_tb(exc.__traceback__))
